@@ -17,7 +17,7 @@ func init() {
 		NonTrivial: func(o *Outcome) bool {
 			return o.Hist.Probes["request-blocked-behind-fetch"] > 0
 		},
-		Rule:         "seeded plans: bursts of 2-9 concurrent GET/HEAD on a hot key over 1-4 epochs; every fetch outcome drawn from {cacheable, uncacheable, undecodable body, transport error, never answers (+proxy timeout), mid-body abort -> panic}; store on/off; purges mixed in; a final probe per key after the hit-for-pass period. non-trivial = a request was observed parked behind a fetch; distinct = distinct history hash",
+		Rule:         "seeded plans: bursts of 2-9 concurrent GET/HEAD on a hot key over 1-4 epochs; every fetch outcome drawn from {cacheable, uncacheable, undecodable body, transport error, never answers (+proxy timeout), mid-body abort -> panic}; store on/off (failing, forgetting or slow in half of the plans that have one); purges mixed in; in 15% of the store-less plans an update renames the server's cache while fetches are in flight; a final probe per key after the hit-for-pass period. non-trivial = a request was observed parked behind a fetch; distinct = distinct history hash",
 		ExpectProbes: []string{"waiter-released-after:err", "waiter-released-after:hang", "waiter-released-after:abort", "waiter-released-after:badenc", "waiter-released-after:uncacheable", "waiter-released-after:cacheable", "sender-blocked-on-unready-waiter"},
 	})
 }
@@ -59,6 +59,16 @@ func genC02(g *Gen) *Plan {
 	timeout := g.n(1, 3)
 	cfg.Locations[0].ProxyTimeout = fmt.Sprintf("%ds", timeout)
 	p.Configs = []Config{cfg}
+	renames := store == "" && g.p(0.15)
+	if renames {
+		// an update renames the server's cache while fetches are in flight (dispatchers are
+		// reset before servers): whoever waits behind a fetch of the old cache is still released
+		c2 := baseConfig(1000, hfpString(hfp), "")
+		c2.Locations[0].ProxyTimeout = cfg.Locations[0].ProxyTimeout
+		c2.Caches[0].Name = "c1b"
+		c2.Servers[0].Cache = "c1b"
+		p.Configs = append(p.Configs, c2)
+	}
 	keys := []string{"/k0"}
 	if g.p(0.5) {
 		keys = append(keys, "/k1")
@@ -98,6 +108,9 @@ func genC02(g *Gen) *Plan {
 			}
 			op.Cancellable = g.p(0.12) // its client may disconnect while it is parked or in flight
 			p.Ops = append(p.Ops, op)
+			if renames && i > 0 && g.p(0.25) {
+				p.Ops = append(p.Ops, Op{Kind: OpReload, Config: (ep + i) % 2})
+			}
 			if g.p(0.08) {
 				p.Ops = append(p.Ops, Op{Kind: OpPurge, Cache: pick(g, "c1", "c1", ""), Key: method + " " + hostA + " " + k})
 			}
